@@ -36,6 +36,10 @@ pub struct Store {
     pub ts: u8,
     pub elems: Vec<Elem>,
     pub cuts: Vec<u16>,
+    /// finish the data with a zero-length last fragment (what a streaming sender does when the
+    /// data ends exactly at a PDU boundary)
+    #[serde(default)]
+    pub empty_last: bool,
 }
 
 #[derive(Clone, Debug, Serialize, Deserialize)]
@@ -215,7 +219,15 @@ fn check(ctx_root: &std::path::Path, c: &Case, obs: &mut Obs) {
         let cmd = ulpeer::cstore_rq(SOP_CLASSES[st.sop_class as usize % 4], &affected, (i + 1) as u16);
         // the command set goes in one fragment (the statement quantifies over fragmented data only)
         let mut pdus = ulpeer::pdata_pdus(id, true, &cmd, peer_max, &[]);
-        pdus.extend(ulpeer::pdata_pdus(id, false, &wire, peer_max, &st.cuts));
+        let mut data_pdus = ulpeer::pdata_pdus(id, false, &wire, peer_max, &st.cuts);
+        if st.empty_last {
+            obs.class("zero-length-last-fragment");
+            if let Some(PduIr::PData { pdvs }) = data_pdus.last_mut() {
+                pdvs[0].last = false;
+            }
+            data_pdus.push(PduIr::PData { pdvs: vec![refimpl::pdu::Pdv { pc_id: id, command: false, last: true, data: vec![] }] });
+        }
+        pdus.extend(data_pdus);
         if pdus.len() > 3 {
             obs.class("data-in-several-fragments");
         }
@@ -352,8 +364,8 @@ fn strategy() -> BoxedStrategy<Case> {
         1 => name.prop_map(UidText::Backslash),
     ];
     // data sets in the default repertoire without pixel sequences in implicit VR (the SCP re-reads with the dictionary)
-    let store = (0u8..4, affected, uid(), 0u8..4, gen::dataset(DsCfg { max_depth: 2, max_top: 5, pixel_seq: false }), proptest::collection::vec(any::<u16>(), 0..4))
-        .prop_map(|(sop_class, affected_instance, ds_instance, ts, elems, cuts)| Store { sop_class, affected_instance, ds_instance, ts, elems, cuts });
+    let store = (0u8..4, affected, uid(), 0u8..4, gen::dataset(DsCfg { max_depth: 2, max_top: 5, pixel_seq: false }), proptest::collection::vec(any::<u16>(), 0..4), proptest::bool::weighted(0.2))
+        .prop_map(|(sop_class, affected_instance, ds_instance, ts, elems, cuts, empty_last)| Store { sop_class, affected_instance, ds_instance, ts, elems, cuts, empty_last });
     (any::<bool>(), proptest::collection::vec(store, 1..=3)).prop_map(|(non_blocking, stores)| Case { non_blocking, stores }).boxed()
 }
 
@@ -362,7 +374,7 @@ pub fn run(ctx: &Ctx) {
     ctx.assume("the real dicom-storescp binary is built from /repo's working tree into /verif/target/tools by ./check; one process per worker thread and mode, each in its own sandbox directory (output directory <sandbox>/a/out)");
     ctx.run_prop(
         "storescp",
-        "a scripted requestor (reference PDU and data set encoders over a raw socket) sends 1-3 C-STORE requests per association to the real dicom-storescp binary (sync and --non-blocking): SOP classes from 4 storage classes, G-DS data sets in Implicit VR LE / Explicit VR LE / Explicit VR BE / Deflated Explicit VR LE, command and data split into fragments at generated cut points and at the acceptor's maximum PDU length, Affected SOP Instance UID texts that are plain UIDs, parent references (../), paths with separators, absolute paths (pointing into the sandbox, outside the output directory), dots only, backslashes; oracle: after the association every file in the sandbox lies directly inside the output directory; every acknowledged store (status 0) has a file whose meta group carries the negotiated transfer syntax and the data set's SOP class / instance UID and whose data set, parsed by the reference parser, equals the one sent; a plain request is never dropped; non-trivial = an acknowledged store with a path-like UID, several stores or fragmented data",
+        "a scripted requestor (reference PDU and data set encoders over a raw socket) sends 1-3 C-STORE requests per association to the real dicom-storescp binary (sync and --non-blocking): SOP classes from 4 storage classes, G-DS data sets in Implicit VR LE / Explicit VR LE / Explicit VR BE / Deflated Explicit VR LE, command and data split into fragments at generated cut points and at the acceptor's maximum PDU length, optionally ending with a zero-length last fragment, Affected SOP Instance UID texts that are plain UIDs, parent references (../), paths with separators, absolute paths (pointing into the sandbox, outside the output directory), dots only, backslashes; oracle: after the association every file in the sandbox lies directly inside the output directory; every acknowledged store (status 0) has a file whose meta group carries the negotiated transfer syntax and the data set's SOP class / instance UID and whose data set, parsed by the reference parser, equals the one sent; a plain request is never dropped; non-trivial = an acknowledged store with a path-like UID, several stores or fragmented data",
         strategy,
         ctx.cases(3_000, 40_000),
         move |c: &Case, obs: &mut Obs| check(&root, c, obs),
